@@ -49,7 +49,10 @@ ASSUMPTIONS = [
     "(or B = 1).  Everything else is rejected explicitly and modelled as an error value (theorem errors_explained): "
     "AssertionError (odd B under flip; labels that are class indices > 1, outside [0,1] or of rank 3), ValueError "
     "(`h, w = x.shape[2:]` for images that are not (C,H,W) when a box is needed), RuntimeError (in-place mixup of an "
-    "integer image), TypeError (0-d samples in lamb_mode sample; no x item).  Where the rejected operation is not "
+    "integer image), TypeError (0-d samples in lamb_mode sample; no x item), AssertionError (a multi-view image item, "
+    "i.e. a list of view tensors per sample -- also in the single-item mode 'x', where get_item used to read the list "
+    "of views as a batch of several items and only view 0 was mixed: repaired, fixes/C10_multiview_single_mode.patch; "
+    "rejected before any draw).  Where the rejected operation is not "
     "needed (pure mixup of (H,W) / (D,) / (C,T,H,W) inputs, pure cutmix of uint8 images) the collator works and the "
     "property is checked",
     "1-d integer labels in {0,1} are binary labels for the collator whatever the dataset meant (inherent ambiguity)",
@@ -60,12 +63,15 @@ RULE = ("B in 1..9, 1-3 channels, H,W in 4..17 independently (some up to 40), al
         "probability splits summing to exactly 1.0 incl. pure mixup / pure cutmix, alphas 0.1..5; pipelines: collator "
         "called directly / in KDComposeCollator / in KDSingleCollatorWrapper / the shipped MAEFinetuneMixCollator(), "
         "return_ctx on and off, in-process or through a torch DataLoader over a real KDDataset+ModeWrapper (trailing "
-        "batches incl. B = 1; thorough: 2 workers re-seeded by the dataset's worker_init_fn); item orders with index / "
+        "batches incl. B = 1; thorough: 2 workers re-seeded by the dataset's worker_init_fn; half of the loader cases "
+        "check a batch of the 2nd / 3rd epoch served by the same collator object, 60% of those after epochs with another "
+        "batch size, i.e. other full and trailing batch sizes); item orders with index / "
         "aux items of dtypes int64, float64, float16, uint8, bool, Python scalars and the single-item mode 'x'; ctx "
         "entries recorded per sample by the dataset (int, float, bool, int16 / float32 tensors); label kinds one-hot id "
         "/ random / long, soft rows, real LabelSmoothingWrapper (multi-class and binary), binary float / int, and the "
         "rejected kinds (class indices, out of range, rank 3); image dtypes float32/float64/uint8/int64 and ranks "
-        "(C,H,W) / (H,W) / (D,) / () / (C,T,H,W); draws from numpy default_rng(seed) or a scripted generator injecting "
+        "(C,H,W) / (H,W) / (D,) / () / (C,T,H,W); 4% multi-view samples (x = list of 2-3 view tensors, 40% of them in the "
+        "single-item mode 'x'); draws from numpy default_rng(seed) or a scripted generator injecting "
         "edge draws (lambda 0/1, centres at the border, identity permutation); non-trivial = B >= 2 and outcome ok; "
         "distinct by (B,H,W,modes,probabilities,tokens,label kind,pipeline,dtype,rank,per-sample cut flags)")
 
@@ -75,7 +81,7 @@ XRANK = {"chw": 3, "hw": 2, "d": 1, "b": 0, "cthw": 4}
 MAE_CFG = {"mixup_alpha": 0.8, "cutmix_alpha": 1.0, "mixup_p": 0.5, "cutmix_p": 0.5, "apply_mode": "batch",
            "lamb_mode": "batch", "shuffle_mode": "flip"}
 OUTCOME = {"ok": 0, "AssertionError:flip": 1, "AssertionError:label": 2, "ValueError:unpack": 3, "RuntimeError:cast": 4,
-           "TypeError:view": 5, "TypeError:nox": 6}
+           "TypeError:view": 5, "TypeError:nox": 6, "AssertionError:multiview": 7}
 
 
 # ---------------------------------------------------------------------------
@@ -441,7 +447,10 @@ def build_dataset(case, collators):
             if ctx is not None:
                 for j, kind in enumerate(ctxitems):
                     ctx[f"u{j}"] = ctx_value(kind, idx)
-            return x_sample(case, idx % full)
+            x = x_sample(case, idx % full)
+            if case.get("views"):
+                return [x + 1000 * v for v in range(case["views"])]      # a multi-view sample: a list of view tensors
+            return x
 
         def getitem_class(self, idx, ctx=None):
             return label_value(case, idx % full)
@@ -480,6 +489,8 @@ def build_pipeline(case, mode, rc):
 def classify(e):
     s = str(e)
     n = type(e).__name__
+    if isinstance(e, AssertionError) and "multi-view" in s:
+        return "AssertionError:multiview"
     if isinstance(e, AssertionError):
         return "AssertionError:label" if "one-hot" in s else "AssertionError:flip" if s.strip() == "" or "len(item)" in s \
             else "AssertionError: " + s[:120]
@@ -633,14 +644,24 @@ def run_impl(case):
     else:
         top.set_rng(make_rng(case))
     if case.get("loader"):
-        loader = DataLoader(mw, batch_size=full, shuffle=False, drop_last=False, num_workers=workers,
-                            collate_fn=recorder, worker_init_fn=mw.worker_init_fn if workers else None)
-        reps = []
-        for rep in loader:
-            reps.append(rep)
-        del loader
-        if workers:
-            gc.collect()     # no stale worker-iterator objects may survive into the next fork
+        # earlier epochs over the same dataset with the SAME collator object (optionally with another batch size, so the
+        # collator sees batches of other sizes -- incl. other trailing sizes -- before the checked one)
+        epochs = case["loader"].get("epochs", 1)
+        prev = []
+        for ep in range(epochs):
+            bs = full if ep == epochs - 1 else (case["loader"].get("prev_full") or full)
+            loader = DataLoader(mw, batch_size=bs, shuffle=False, drop_last=False, num_workers=workers,
+                                collate_fn=recorder, worker_init_fn=mw.worker_init_fn if workers else None)
+            reps = []
+            for rep in loader:
+                reps.append(rep)
+            del loader
+            if workers:
+                gc.collect()     # no stale worker-iterator objects may survive into the next fork
+            if ep < epochs - 1:
+                prev.append([[r["n"], r["result"][:40]] for r in reps])
+        if prev:
+            obs["prev_epochs"] = prev
         obs["n_batches"] = len(reps)
         obs["batch_sizes"] = [r["n"] for r in reps]
         if workers:
@@ -677,6 +698,12 @@ def run_impl(case):
     if rep["n_collate_calls"] != 1 or ctx is None:
         obs["layout"] = f"KDMixCollator.collate was called {rep['n_collate_calls']} times"
         return obs
+    if case.get("views") and "x" in toks:
+        xi = out if len(toks) == 1 else (out[toks.index("x")] if isinstance(out, (list, tuple)) and len(out) == len(toks) else None)
+        if isinstance(xi, (list, tuple)) and all(isinstance(v, torch.Tensor) for v in xi):
+            ref = [torch.stack([x_sample(case, (k * full + i) % full) + 1000 * v for i in range(b)]) for v in range(case["views"])]
+            obs["views_changed"] = [v for v, (a, r_) in enumerate(zip(xi, ref))
+                                    if a.shape != r_.shape or not torch.equal(a.double(), r_.double())]
     if len(toks) == 1:
         obs["layout"] = "tensor" if isinstance(out, torch.Tensor) else f"{type(out).__name__}[{len(out)}]"
         out_items = [out]
@@ -830,6 +857,8 @@ def expected_error(case, obs):
         return case.get("xrank", "chw") == "b" and m["lamb_mode"] == "sample" and (m["mixup_p"] or 0.0) > 0
     if r == "TypeError:nox":
         return "x" not in case["tokens"]
+    if r == "AssertionError:multiview":
+        return bool(case.get("views")) and "x" in case["tokens"]
     return False
 
 
@@ -843,6 +872,10 @@ def oracle(case, obs):
         if expected_error(case, obs):
             return None
         return "collator raised " + obs["result"]
+    if case.get("views") and "x" in case["tokens"]:
+        return (f"a multi-view image item ({case['views']} views per sample) was accepted in mode {case['tokens']}: returned "
+                f"{obs.get('layout')}" + (f", views changed by the collator: {obs['views_changed']} of {case['views']}"
+                                          if "views_changed" in obs else ""))
     if obs["layout"] not in ("tensor", "tuple"):
         return f"batch layout changed: mode {case['tokens']} returned {obs['layout']}"
     if case.get("loader") and obs["batch_sizes"][-1] != b:
@@ -991,6 +1024,7 @@ def coq_case(case, obs):
         x_rank=Nat(XRANK[case.get("xrank", "chw")]),
         x_float=case.get("xdtype", "float32").startswith("float"),
         lab_ndim=Nat(label_ndim(case)),
+        x_views=Nat(case.get("views") or 0),
     )
     halves = [(a, b) for a, b in obs["halves"]]
     tr = [draw(d) for d in obs["trace"]]
@@ -1144,6 +1178,11 @@ def gen_case(rng, big=False, tier="quick"):
         k = rng.choice([0, 1, 1, 2]) if full > b else rng.choice([0, 0, 1])
         workers = 2 if (tier == "thorough" and rng.random() < 0.25) else 0
         case["loader"] = {"full": full, "k": k, "workers": workers}
+        if rng.random() < 0.5:
+            # the collator object has already served 1-2 epochs, possibly with another batch size
+            case["loader"]["epochs"] = rng.randint(2, 3)
+            if rng.random() < 0.6:
+                case["loader"]["prev_full"] = rng.randint(1, 9)
         if workers:
             case["rng"][0] = "worker"
     gen_labels(rng, case, LABEL_KINDS)
@@ -1158,6 +1197,11 @@ def gen_case(rng, big=False, tier="quick"):
     r = rng.random()
     if r < 0.10:
         case["xrank"] = rng.choice(["hw", "hw", "d", "b", "cthw"])
+    if rng.random() < 0.04:
+        case["views"] = rng.choice([2, 2, 3])       # multi-view samples: x is a list of view tensors
+        if rng.random() < 0.4 and case.get("pipe") != "mae":
+            case["tokens"] = ["x"]
+            case.pop("auxdt", None)
     if rng.random() < 0.02:
         case["tokens"] = [t for t in case["tokens"] if t != "x"] or ["class"]
         if case.get("pipe") == "mae":
@@ -1181,7 +1225,12 @@ def shrink(case):
     b = case["B"]
     lab = case["labels"]
     kind, vals = lab[0], lab[1]
-    for key in ("loader", "ctxitems", "auxdt", "xdtype", "xrank"):
+    if case.get("loader") and case["loader"].get("epochs", 1) > 1:
+        ld = {a: b_ for a, b_ in case["loader"].items() if a not in ("epochs", "prev_full")}
+        yield dict(case, loader=ld)
+        if case["loader"].get("prev_full"):
+            yield dict(case, loader={a: b_ for a, b_ in case["loader"].items() if a != "prev_full"})
+    for key in ("loader", "ctxitems", "auxdt", "xdtype", "xrank", "views"):
         if case.get(key):
             c = dict(case)
             c.pop(key)
@@ -1223,10 +1272,16 @@ def features(case, obs):
     yield "return_ctx=%s" % (False if case.get("pipe") == "mae" else case.get("rc", True))
     if case.get("loader"):
         yield "loader workers=%d%s" % (case["loader"]["workers"], " trailing batch" if case["loader"]["full"] > case["B"] else "")
+        if obs.get("prev_epochs"):
+            sizes = sorted({n for ep in obs["prev_epochs"] for n, _ in ep})
+            yield "loader: collator reused after %d epoch(s)%s" % (
+                len(obs["prev_epochs"]), ", earlier batch sizes differ from the checked one" if sizes != [case["B"]] else "")
         if obs.get("worker_first_traces_differ") is not None:
             yield "worker streams differ=%s" % obs["worker_first_traces_differ"]
     yield "xdtype=" + case.get("xdtype", "float32")
     yield "xrank=" + case.get("xrank", "chw")
+    if case.get("views"):
+        yield "multi-view x (%d views)%s" % (case["views"], ", single-item mode" if case["tokens"] == ["x"] else "")
     for kind in case.get("ctxitems") or []:
         yield "ctx entry " + kind
     for t, kind in (case.get("auxdt") or {}).items():
